@@ -10,12 +10,13 @@
 (*         where pp.c deviates from Part 1 is a named deviation switched by    *)
 (*         the constant Devs (set of names).                                   *)
 (* Part 3  program spaces for BFS, random generator for -simulate, emission.   *)
-EXTENDS Naturals, Integers, Sequences, FiniteSets, TLC, Json
+EXTENDS Naturals, Integers, Sequences, FiniteSets, TLC, Json, MacroDisc
 
 CONSTANTS Devs,      \* set of enabled deviation names (see DevNames)
           Space,     \* name of the program space ("q1", "redef", "sim", ...)
           Modes,     \* subset of {"E","C"}: -E (PPNEWLINE) / compile path
-          EmitCases  \* BOOLEAN: print VCASE lines
+          EmitCases, \* BOOLEAN: print VCASE lines
+          PeekBudget \* how many times the consumer may call peek() with a non-matching kind (token pushed back)
 
 DevNames == {"PendingReuse", "PaintBody", "MacroequalSpace", "StaleNewline",
              "StrTrailingNL", "StrSkipsNested", "ZeroParamNL", "ArgNewlineTok",
@@ -260,12 +261,13 @@ Fire(m, d) == [m EXCEPT !.fired = @ \cup {d}]
 
 Mem0(names) == [mac |-> [n \in names |-> NoMac], ctx |-> <<>>, md |-> 0, pos |-> 1, nl |-> TRUE, tok |-> EofTok,
                 pend |-> <<>>, pushes |-> [n \in names |-> 0], pops |-> [n \in names |-> 0],
-                fired |-> {}, err |-> "", maxctx |-> 0, ndir |-> 0]
+                fired |-> {}, err |-> "", maxctx |-> 0, ndir |-> 0, pk |-> EofTok, pkn |-> PeekBudget]
 
 Stor(m, f) == CASE f.r = "body" -> m.mac[f.m].body
                 [] f.r = "arg"  -> m.mac[f.m].args[f.a].toks
                 [] f.r = "str"  -> <<m.mac[f.m].args[f.a].str>>
                 [] f.r = "pend" -> m.pend
+                [] f.r = "pk"   -> <<m.pk>>
 
 (* macrodone() *)
 MacroDone(m, n) == [m EXCEPT !.mac[n].hide = FALSE, !.md = @ - 1, !.pops[n] = @ + 1]
@@ -293,6 +295,7 @@ SetSp(m, f, space) ==
     [] f.r = "arg"  -> [m EXCEPT !.mac[f.m].args[f.a].toks[f.i].sp = space]
     [] f.r = "str"  -> [m EXCEPT !.mac[f.m].args[f.a].str.sp = space]
     [] f.r = "pend" -> [m EXCEPT !.pend[f.i].sp = space]
+    [] f.r = "pk"   -> [m EXCEPT !.pk.sp = space]
 CtxPush(m, f, space) ==
   LET m1 == IF f.cnt > 0 THEN SetSp(m, f, space) ELSE m
   IN [m1 EXCEPT !.ctx = Append(@, f), !.maxctx = Max2(@, Len(m.ctx) + 1)]
@@ -381,6 +384,7 @@ Paint(m, t) ==
               [] rf.r = "arg"  -> [m EXCEPT !.mac[rf.m].args[rf.a].toks[rf.i].h = TRUE]
               [] rf.r = "pend" -> [m EXCEPT !.pend[rf.i].h = TRUE]
               [] rf.r = "tok"  -> [m EXCEPT !.tok.h = TRUE]
+              [] rf.r = "pk"   -> [m EXCEPT !.pk.h = TRUE]
               [] OTHER -> m
   IN [mem |-> m2, t |-> t2]
 
@@ -454,6 +458,18 @@ NextAfter ==
           /\ status' = IF v.k = "eof" THEN "ok" ELSE status
           /\ stack' = SetTop([Top EXCEPT !.pc = "fetch"])
           /\ UNCHANGED ret /\ Static
+
+(* peek(kind) when the next token is not of that kind: static struct token     *)
+(* pending = tok; tok = old; ctxpush(&pending, 1, NULL, pending.space).  The     *)
+(* consumer has then not received the token: it is taken back from out.          *)
+PeekPushBack ==
+  /\ Running /\ Top.f = "next" /\ Top.pc = "fetch" /\ mem.pkn > 0 /\ out # <<>> /\ mode = "C"
+  /\ \A q \in 1..Len(mem.ctx) : mem.ctx[q].r # "pk"     \* peek() starts with next(), which re-reads the previous push-back
+  /\ LET v == Last(out)
+         m1 == [mem EXCEPT !.pk = v, !.pkn = @ - 1, !.tok = IF Len(out) > 1 THEN out[Len(out) - 1] ELSE EofTok]
+     IN mem' = CtxPush(m1, Frame("pk", "", 0, 1, 1), v.sp)
+  /\ out' = Front(out)
+  /\ UNCHANGED <<stack, ret, status>> /\ Static
 
 (* return b from expand(): pop, hand the (possibly painted) token back *)
 ExpandReturn(m, b, t) ==
@@ -591,7 +607,7 @@ FuncFinish ==
           /\ stack' = Front(stack)
           /\ UNCHANGED <<ret, out, status>> /\ Static
 
-Step == NextFetch \/ NextAfter \/ ExpandLookup \/ ExpandPeek \/ ExpandPush
+Step == NextFetch \/ NextAfter \/ PeekPushBack \/ ExpandLookup \/ ExpandPeek \/ ExpandPush
         \/ FuncStart \/ FuncTok \/ FuncAft \/ FuncEndArg \/ FuncFinish
 
 (* ======================================================================== *)
@@ -696,6 +712,22 @@ ProgSpace ==
                                                IN nm \in {"1"} \/ \E q \in 1..Len(ps) : ps[q] = nm},
                  s \in SeqsUpTo({"~)", "~,", "1", "~(", "G", "NL"}, 3)} :
               ps \in {<<"__VA_ARGS__">>, <<"x", "__VA_ARGS__">>, <<>>, <<"x", "y">>}}
+    [] Space = "sec8" ->  \* the failing inputs of DESIGN.md section 8 and of the defects found by this check, verbatim
+       { <<Def("C", TRUE, <<"a">>, <<"a">>)>> \o Text(<<"C", "C", "1">>),
+         <<Def("H", FALSE, <<>>, <<"A", "B">>), Def("B", FALSE, <<>>, <<"Z", "H">>)>> \o Text(<<"B", "NL", "H">>),
+         <<Line("def", "A", FALSE, <<>>, <<Tk("num", "1", TRUE), Tk("p", "+", TRUE), Tk("num", "2", TRUE)>>),
+           Line("def", "A", FALSE, <<>>, <<Tk("num", "1", TRUE), Tk("p", "+", FALSE), Tk("num", "2", FALSE)>>)>> \o Text(<<"A">>),
+         <<Def("A", FALSE, <<>>, <<"x">>)>> \o Text(<<"A">>) \o <<Def("x", FALSE, <<>>, <<"1">>)>> \o Text(<<"A">>),
+         <<Def("F", TRUE, <<"x">>, <<"x">>)>> \o Text(<<"F">>) \o <<Def("G", FALSE, <<>>, <<"1">>)>> \o Text(<<"G">>),
+         <<Def("S", TRUE, <<"x">>, <<"#x">>)>> \o Text(<<"S", "~(", "~a", "NL", "~)">>),
+         <<Def("h", TRUE, <<"a", "b">>, <<"a", "+", "b">>), Def("g", TRUE, <<"x">>, <<"#x", "x">>)>>
+            \o Text(<<"g", "~(", "~h", "~(", "~1", "~,", "~2", "~)", "~)">>),
+         <<Def("F", TRUE, <<>>, <<"1">>)>> \o Text(<<"F", "~(", "NL", "~)">>),
+         <<Def("G", TRUE, <<"x">>, <<"[", "x", "]">>), Def("H", TRUE, <<"z">>, <<"G", "z">>)>> \o Text(<<"H", "~(", "NL", "~(", "~1", "~)", "~)">>),
+         <<Def("F", TRUE, <<"a">>, <<"a">>)>> \o Text(<<"F", "~(", "~1", "~,", "~)">>),
+         <<Def("F", TRUE, <<"y">>, <<"y">>), Def("ID", TRUE, <<"x">>, <<"x">>)>> \o Text(<<"ID", "~(", "~F", "~)", "1">>),
+         <<Def("T", FALSE, <<>>, <<"int">>)>> \o Text(<<"T", "a", ";", "T", "b", ";">>),
+         <<Def("A", TRUE, <<"x">>, <<"x">>), Def("B", FALSE, <<>>, <<"A">>)>> \o Text(<<"B">>) \o <<Undef("B")>> }
     [] Space = "redef" -> \* #define / #undef histories of one name, then a use
        LET cand == {Def("A", FALSE, <<>>, <<"(", "1", ")">>), Def("A", FALSE, <<>>, <<"(", "~1", "~)">>),
                     Def("A", FALSE, <<>>, <<"(", "2", ")">>), Def("A", FALSE, <<>>, <<"(", "1">>),
@@ -877,6 +909,16 @@ Inv_End ==
     LET m == PopDone(mem) IN
     /\ m.md = 0 /\ Len(stack) = 1 /\ ("PendingReuse" \notin mem.fired => m.ctx = <<>>)
     /\ \A n \in DOMAIN m.mac : m.pushes[n] = m.pops[n] /\ ("StaleDepth" \notin mem.fired => ~m.mac[n].hide)
+
+(* the hide discipline (MacroDisc.tla, also the monitor of real executions in   *)
+(* Trace_PP.tla): frames are dropped from the top, a macro is pushed only while  *)
+(* not live, directives are executed only while no replacement list is live      *)
+BodyStack(c) ==
+  LET idx == SelectSeq([i \in 1..Len(c) |-> i], LAMBDA i : c[i].r = "body")
+  IN [j \in 1..Len(idx) |-> c[idx[j]].m]
+Prop_Disc ==
+  [][/\ DiscStep(BodyStack(mem.ctx), BodyStack(mem'.ctx), "StaleDepth" \in mem'.fired)
+     /\ (mem'.ndir # mem.ndir /\ mem.ndir # 0 => mem'.md = 0)]_vars
 
 ModelOutcome ==
   LET idx == SelectSeq([i \in 1..Len(out) |-> i], LAMBDA i : out[i].k # "nl")
